@@ -7,18 +7,28 @@ wt=/tmp/confirm-$id
 git -C /repo worktree remove --force $wt 2>/dev/null; rm -rf $wt
 git -C /repo worktree add -q --detach $wt HEAD || exit 2
 cd $wt
-git apply /verif/seeded/$id/patch.diff || { echo "PATCH DOES NOT APPLY"; exit 2; }
-go build ./... || { echo "BUILD FAILS"; exit 2; }
+git apply /verif/seeded/$id/patch.diff || { echo "PATCH DOES NOT APPLY"; cd /; git -C /repo worktree remove --force $wt; exit 2; }
+go build ./... || { echo "BUILD FAILS"; cd /; git -C /repo worktree remove --force $wt; exit 2; }
 suite=$(go test -mod=mod -vet=off -count=1 ./... 2>&1 | grep -c "^FAIL")
 echo "suite-with-change: FAIL-lines=$suite"
-# place demos
-runpat=""
-for f in /verif/seeded/$id/*.yml; do [ -f "$f" ] && cp "$f" scenario/ && n=$(basename $f .yml) && runpat="$runpat|TestScenario/$n\$"; done
-for f in /verif/seeded/$id/seed_demo_test.go /verif/seeded/$id/seed_demo_test.go.txt; do [ -f "$f" ] && cp "$f" ./seed_demo_test.go && runpat="$runpat|TestSeed"; done
-runpat=${runpat#|}
-with=$(go test -mod=mod -vet=off -count=1 -run "$runpat" . 2>&1 | tail -1)
-git apply -R /verif/seeded/$id/patch.diff
-without=$(go test -mod=mod -vet=off -count=1 -run "$runpat" . 2>&1 | tail -1)
+if [ -f /verif/seeded/$id/DEMO.txt ]; then
+  # line 1: repo-relative path of the demo file, line 2: command (from the repo root)
+  dst=$(sed -n 1p /verif/seeded/$id/DEMO.txt | tr -d '\r' | sed 's/^ *//;s/ *$//')
+  cmd=$(sed -n 2p /verif/seeded/$id/DEMO.txt)
+  mkdir -p "$(dirname "$dst")"
+  cp "/verif/seeded/$id/$(basename "$dst")" "$dst" || { echo "DEMO FILE MISSING"; }
+  with=$(sh -c "$cmd" 2>&1 | tail -1)
+  git apply -R /verif/seeded/$id/patch.diff
+  without=$(sh -c "$cmd" 2>&1 | tail -1)
+else
+  runpat=""
+  for f in /verif/seeded/$id/*.yml; do [ -f "$f" ] && cp "$f" scenario/ && n=$(basename $f .yml) && runpat="$runpat|TestScenario/$n\$"; done
+  for f in /verif/seeded/$id/seed_demo_test.go /verif/seeded/$id/seed_demo_test.go.txt; do [ -f "$f" ] && cp "$f" ./seed_demo_test.go && runpat="$runpat|TestSeed"; done
+  runpat=${runpat#|}
+  with=$(go test -mod=mod -vet=off -count=1 -run "$runpat" . 2>&1 | tail -1)
+  git apply -R /verif/seeded/$id/patch.diff
+  without=$(go test -mod=mod -vet=off -count=1 -run "$runpat" . 2>&1 | tail -1)
+fi
 echo "demo-with-change:    $with"
 echo "demo-without-change: $without"
 cd /; git -C /repo worktree remove --force $wt
